@@ -16,23 +16,6 @@ pub open spec fn cmd_wf(c: Command) -> bool {
 }
 
 impl MainState {
-    // ASSUMED (handlers not under contract): they keep the connection invariant. PONG only notifies the pong timer; TIME, HELP only read; WHOIS only reads (its per-nickname body is proved in unit whois).
-    #[verifier::external_body]
-    pub async fn process_pong<'a>(&self, state: &mut VolatileState, conn_state: &mut ConnState, token: &'a str) -> (r: Result<(), HErr>)
-        requires conn_inv(*old(conn_state), *old(state)), ensures conn_inv(*final(conn_state), *final(state)), final(conn_state).user_state.authenticated == old(conn_state).user_state.authenticated,
-    { unimplemented!() }
-    #[verifier::external_body]
-    pub async fn process_time<'a>(&self, state: &mut VolatileState, conn_state: &mut ConnState, server: Option<&'a str>) -> (r: Result<(), HErr>)
-        requires conn_inv(*old(conn_state), *old(state)), ensures conn_inv(*final(conn_state), *final(state)), final(conn_state).user_state.authenticated == old(conn_state).user_state.authenticated,
-    { unimplemented!() }
-    #[verifier::external_body]
-    pub async fn process_help<'a>(&self, state: &mut VolatileState, conn_state: &mut ConnState, subject: Option<&'a str>) -> (r: Result<(), HErr>)
-        requires conn_inv(*old(conn_state), *old(state)), ensures conn_inv(*final(conn_state), *final(state)), final(conn_state).user_state.authenticated == old(conn_state).user_state.authenticated,
-    { unimplemented!() }
-    #[verifier::external_body]
-    pub async fn process_whois<'a>(&self, state: &mut VolatileState, conn_state: &mut ConnState, target: Option<&'a str>, nickmasks: Vec<&'a str>) -> (r: Result<(), HErr>)
-        requires conn_inv(*old(conn_state), *old(state)), ensures conn_inv(*final(conn_state), *final(state)), final(conn_state).user_state.authenticated == old(conn_state).user_state.authenticated,
-    { unimplemented!() }
 
 //@fn state/rest_cmds.rs MainState::process_privmsg unit=privmsg2 props=C01,C10 rules=R2
 //@sigadd state: &mut VolatileState
@@ -63,10 +46,6 @@ impl MainState {
 
 //@block state/mod.rs MainState::process_internal step_command unit=step props=C04,C02,C06,C03,C05 rules=R2 from=~|match cmd \{| to=~|self\.process_die\(conn_state, message\)\.await,| plus=1
 //@autocallargs
-//@callargs process_pong state
-//@callargs process_time state
-//@callargs process_help state
-//@callargs process_whois state
 //@head
     pub async fn step_command<'a>(&self, state: &mut VolatileState, conn_state: &mut ConnState, cmd: Command<'a>, msg: Message<'a>,
             Tracked(outbox): Tracked<&mut Outbox>, Tracked(sig): Tracked<&mut Signals>) -> (r: Result<(), HErr>)
